@@ -494,6 +494,12 @@ class ToExec:
                 continue
             rq.had_conn = True
             if pc.idx not in rq.conns_used:
+                if rq.conns_used:
+                    # aiohttp retried the request on another connection (idempotent method after
+                    # a disconnect): the exchange, and the peer's script, start again there
+                    rq.t_written = rq.t_feed = rq.t_resume = -1.0
+                    rq.fed = 0
+                    rq.was_paused = False
                 rq.conns_used.append(pc.idx)
             if rq.t_written < 0 and rq.status == "pending":
                 try:
@@ -543,6 +549,7 @@ class ToExec:
             "dnsw": dnsw,
             "cancelreq": bool(self.reqs["v"].cancel_effective),
             "gotresp": bool(self.reqs["v"].got_response),
+            "interim": "cont" in self.reqs["v"].fed_parts,
             "fault": self.fault_injected,
         }
 
@@ -1059,6 +1066,10 @@ NAMED = {
         "total timeout and caller cancel both reach the victim while it awaits the response head: "
         "TimerContext.__exit__ runs twice (ClientResponse.start inside ClientSession._request), both levels call "
         "task.uncancel(), the outer one turns the caller's CancelledError into TimeoutError",
+    "ReadTimerNotStartedAfterInterim":
+        "the sock_read timer is not started when the request body has been written after an interim "
+        "100 Continue (start_timeout() takes the interim response's empty payload for a complete response): "
+        "a peer that stalls after 100 Continue is never timed out",
     "ReadTimerRearmedAfterEof":
         "ResponseHandler.resume_reading() re-arms the sock_read timer after resuming the parser completed the "
         "payload and released the connection: the timer fires on the idle pooled connection, the next request "
@@ -1180,7 +1191,7 @@ def run(ctx: Ctx) -> None:
                     traces.append(replay_path(ctx, loop, p, mc, cutsel=n % 7, readn=n))
             if any(a["outcome"].get("v") == "timeout" for _, _, a in p["steps"]):
                 # the victim's caller retries at once from its exception handler (third party)
-                traces.append(replay_path(ctx, loop, p, mc, cutsel=len(labels) % 7, retry=True,
+                traces.append(replay_path(ctx, loop, p, mc, cutsel=2 * (len(labels) % 4), retry=True,
                                           readn=100 if mc["BigChunk"] else 0))
         ctx.log(f"scripted {name}: {res.distinct} states, {len(scns)} scenarios, {len(paths)} paths, "
                 f"{len(traces) - n0} replays; drift so far: {dict(ctx.drifts)}")
@@ -1202,7 +1213,9 @@ def run(ctx: Ctx) -> None:
         behs, _ = simulate_behaviours("ClientTimeouts", write_cfg("sim", invariants=[], **mc),
                                       num=ctx.pick(60, 600), depth=40, seed=ctx.seed, timeout=600)
         for k, b in enumerate(behs):
-            sims.append(replay_path(ctx, loop, path_from_behaviour(b), mc, cutsel=k % 7, body_variant=k % 2,
+            pth = path_from_behaviour(b)
+            has_q = any("qpart" in lab for lab, _, _ in pth["steps"])     # needs the chunked response script
+            sims.append(replay_path(ctx, loop, pth, mc, cutsel=2 * (k % 4) if has_q else k % 7, body_variant=k % 2,
                                     src="tlc-sim", readn=(0, 100, 40)[k % 3] if mc["BigChunk"] else 0,
                                     retry=(k % 2 == 1)))
     ctx.log(f"replayed {len(sims)} simulated behaviours; drift: {dict(ctx.drifts)}")
